@@ -10,7 +10,10 @@
 //!     oracle failures on stderr (or DIR/oracle.txt).
 
 mod arena;
+mod kv;
 mod rng;
+mod tree;
+mod treegen;
 
 use rng::Rng;
 use std::collections::BTreeMap;
@@ -36,6 +39,8 @@ pub fn fmt_opt<T: Display>(v: Option<T>) -> String {
 struct Harness {
     arena_heap: bool,
     arena: Box<dyn Machine>,
+    tree: tree::TreeMachine,
+    events: BTreeMap<String, u64>,
     case: String,
     lineno: usize,
     failures: Vec<String>,
@@ -47,6 +52,8 @@ impl Harness {
         Harness {
             arena_heap: false,
             arena: Box::new(arena::ArenaMachine::<u64>::new()),
+            tree: tree::TreeMachine::new(),
+            events: BTreeMap::new(),
             case: "0".into(),
             lineno: 0,
             failures: Vec::new(),
@@ -54,6 +61,13 @@ impl Harness {
         }
     }
     fn reset(&mut self) {
+        // drop the previous map inside catch_unwind-free context; merge its event counters
+        let old = std::mem::replace(&mut self.tree, tree::TreeMachine::new());
+        for (k, v) in &old.events {
+            *self.events.entry(k.clone()).or_insert(0) += v;
+        }
+        drop(old);
+        kv::set_heap_mode(false);
         self.arena = if self.arena_heap {
             Box::new(arena::ArenaMachine::<arena::HeapItem>::new())
         } else {
@@ -82,6 +96,8 @@ impl Harness {
                 match &ws[1..] {
                     ["arena-item", "heap"] => self.arena_heap = true,
                     ["arena-item", "plain"] => self.arena_heap = false,
+                    ["kv", "heap"] => kv::set_heap_mode(true),
+                    ["kv", "plain"] => kv::set_heap_mode(false),
                     _ => {}
                 }
                 "ok".into()
@@ -89,6 +105,13 @@ impl Harness {
             "A" => {
                 let out = self.arena.exec(&ws[1..]);
                 for f in self.arena.take_failures() {
+                    self.failures.push(format!("case={} line={} op=`{}` {}", self.case, self.lineno, line, f));
+                }
+                out
+            }
+            "R" => {
+                let out = self.tree.exec(&ws[1..]);
+                for f in self.tree.take_failures() {
                     self.failures.push(format!("case={} line={} op=`{}` {}", self.case, self.lineno, line, f));
                 }
                 out
@@ -144,6 +167,16 @@ fn main() {
                             let l = if c % 5 == 0 { len * 3 } else { len };
                             arena::gen_case(&mut rng, l, &mut exec);
                         }
+                        "tree-ops" | "tree-iter" | "tree-range" | "tree-api" => {
+                            exec(format!("case {}", c));
+                            let l = if c % 9 == 0 { len * 4 } else { len };
+                            match suite.as_str() {
+                                "tree-ops" => treegen::gen_ops(&mut rng, l, &mut exec, c),
+                                "tree-iter" => treegen::gen_iter(&mut rng, l, &mut exec, c),
+                                "tree-range" => treegen::gen_range(&mut rng, l, &mut exec, c),
+                                _ => treegen::gen_api(&mut rng, l, &mut exec, c),
+                            }
+                        }
                         other => {
                             eprintln!("unknown suite {}", other);
                             std::process::exit(2);
@@ -154,6 +187,9 @@ fn main() {
             ops.flush().unwrap();
             imp.flush().unwrap();
             std::fs::write(format!("{}/oracle.txt", out), h.failures.join("\n") + if h.failures.is_empty() { "" } else { "\n" }).unwrap();
+            h.reset();
+            let evs: Vec<String> = h.events.iter().map(|(k, v)| format!("\"{}\": {}", k, v)).collect();
+            std::fs::write(format!("{}/events.json", out), format!("{{{}}}\n", evs.join(", "))).unwrap();
             let hist: Vec<String> = h.op_hist.iter().map(|(k, v)| format!("\"{}\": {}", k, v)).collect();
             std::fs::write(
                 format!("{}/stats.json", out),
